@@ -7,18 +7,22 @@ import (
 	"time"
 
 	"github.com/gotd/td/bin"
+	"github.com/gotd/td/clock"
 	"github.com/gotd/td/crypto"
 	"github.com/gotd/td/internal/verifrt"
 )
 
 // VerifC07_msgid: checkMessageID(now, id) for every 64-bit id whose seconds field lies between
 // 2001 and 2037 (the low 32 bits, read as a signed nanosecond count as MessageID.Time does, are
-// arbitrary) and every clock reading in that range. Reference (security guidelines): accept iff
+// arbitrary) and every clock reading in that range (quick tier: any reading within one fixed second). Reference (security guidelines): accept iff
 // the two low bits say "from server" (1 or 3) and the id's time is at most 300 s behind and at
 // most 30 s ahead of the clock.
 func VerifC07_msgid() {
 	id := verifrt.NondetInt64("id")
-	sec := verifrt.NondetInt64("sec")
+	sec := int64(1700000000) // quick: the clock's second is fixed, its nanoseconds arbitrary
+	if verifrt.Tier() == 1 {
+		sec = verifrt.NondetInt64("sec")
+	}
 	nsec := verifrt.NondetInt64("nsec")
 	idSec := id >> 32
 	idFrac := int64(int32(id))
@@ -52,6 +56,13 @@ func VerifC07_msgid() {
 	}
 }
 
+// c07clock is a clock that stands still (the same instant under the engine and natively).
+type c07clock struct{}
+
+func (c07clock) Now() time.Time                      { return time.Unix(1700000000, 500000000) }
+func (c07clock) Timer(d time.Duration) clock.Timer   { return clock.System.Timer(d) }
+func (c07clock) Ticker(d time.Duration) clock.Ticker { return clock.System.Ticker(d) }
+
 // VerifC07_session: Conn.decryptMessage on a message whose session id, message id and the clock
 // are arbitrary (the cipher is a fake handing over the "decrypted" fields). Claims: a message of
 // another session is rejected with errRejected and leaves the replay buffer untouched; a message
@@ -60,6 +71,7 @@ func VerifC07_msgid() {
 func VerifC07_session() {
 	h := newVerifMT()
 	c := h.c
+	c.clock = c07clock{}
 	mine := verifrt.NondetInt64("mysession")
 	c.sessionID = mine
 	sid := verifrt.NondetInt64("session")
